@@ -19,7 +19,7 @@ from .. import ctx
 from ..fnview import FnView
 from .. import paths
 from ..pattern import match
-from ..project import AnalysisError, call_name, kwarg, norm, walk_no_nested
+from ..project import AnalysisError, call_name, kwarg, norm, order, walk_no_nested
 from ..roles import MarshalRoles
 
 BASE = "tpmstream.spec.common.base_type"
@@ -94,14 +94,14 @@ def manual_reader(run, roles, fn, V, t):
         if not big:
             continue
         init = [a for a in walk_no_nested(fn) if isinstance(a, ast.Assign) and norm(a.targets[0]) == acc and a is not upd
-                and a.lineno < lp.lineno]
+                and order(a) < order(lp)]
         if not (len(init) == 1 and isinstance(init[0].value, ast.Constant) and init[0].value.value == 0):
             continue
         n_expr = V.resolve(it.args[0], lp)
         n_txt = {norm(it.args[0]), norm(n_expr)}
         # sign correction
         signed_src, thr_ok, found = None, None, False
-        for st in [x for x in walk_no_nested(fn) if isinstance(x, ast.If) and x.lineno > lp.lineno]:
+        for st in [x for x in walk_no_nested(fn) if isinstance(x, ast.If) and order(x) > order(lp)]:
             if "_signed" not in norm(st.test):
                 continue
             inner = [x for x in st.body if isinstance(x, ast.If)]
